@@ -16,7 +16,6 @@ package lib
 
 import (
 	"bytes"
-	"encoding/binary"
 	"encoding/hex"
 	"errors"
 	"fmt"
@@ -453,12 +452,9 @@ func (w *c07World) runCell(st c07Station, c c07Cell, secret []byte) (string, str
 	cfgLine := fmt.Sprintf("%s,%s,%s,%d %d,%s", vlib.B(st.e4), vlib.B(st.e6), vlib.B(st.share), int(pb.TransportType_Min), int(pb.TransportType_Prefix), c07BlocklistLine(st.block))
 	var wire string
 	var fams [2]c07Fam
-	parsedOK := false
 	if c.garbage {
 		wire = "G"
 	} else {
-		parsedOK = true
-		tr := c07Transports[c.transport]
 		var c2s *pb.ClientToStation
 		if c.payload {
 			c2s = c.wrapper(secret).RegistrationPayload
@@ -491,7 +487,6 @@ func (w *c07World) runCell(st c07Station, c c07Cell, secret []byte) (string, str
 			protoN = int(t.GetProto())
 			ident = hex.EncodeToString([]byte(t.GetIdentifier(&DecoyRegistration{Keys: &keys, Transport: c2s.GetTransport()})))
 		}
-		_ = tr
 		covertStr, _ := rm.ParseOrResolveBlocklisted(c2s.GetCovertAddress())
 		rg := c07Registrants[c.registrant]
 		geoOK := !(c07Geo{}).isErr(net.IP(rg.b))
@@ -637,7 +632,7 @@ func (w *c07World) runCell(st c07Station, c c07Cell, secret []byte) (string, str
 	}
 	model := "c07|" + cfgLine + "|" + wire + "|" + wire
 
-	w.oracle(st, c, parsedOK, fams, passes, replay)
+	w.oracle(st, c, fams, passes, replay)
 	return model, impl
 }
 
@@ -721,7 +716,7 @@ func c07Expect(st c07Station, c c07Cell, v6 bool) c07Want {
 	return w
 }
 
-func (w *c07World) oracle(st c07Station, c c07Cell, parsedOK bool, fams [2]c07Fam, passes [2]c07Pass, replay string) {
+func (w *c07World) oracle(st c07Station, c c07Cell, fams [2]c07Fam, passes [2]c07Pass, replay string) {
 	out := w.out
 	famName := []string{"IPv4", "IPv6"}
 	count := func(evs []c07Event, kind byte, phantom string) (n int, first int) {
@@ -735,16 +730,16 @@ func (w *c07World) oracle(st c07Station, c c07Cell, parsedOK bool, fams [2]c07Fa
 		}
 		return
 	}
-	totalProbesWanted := 0
-	for i, v6 := range []bool{false, true} {
-		want := c07Expect(st, c, v6)
-		f := fams[i]
-		// what was observed for this family's registration
+	wants := [2]c07Want{c07Expect(st, c, false), c07Expect(st, c, true)}
+	probesWanted, probeSeq := 0, 0
+	for i := range fams {
+		want, f := wants[i], fams[i]
+		// ---- admitted iff every condition holds
 		announced := 0
 		if f.reg != nil {
 			announced, _ = count(passes[0].evs, 'A', c07Canon(f.reg.PhantomIp))
 		}
-		connect := f.reg != nil && f.connect
+		connect := f.reg != nil && passes[0].fam[i].connect
 		out.Checked()
 		switch {
 		case want.admit && !(connect && announced == 1):
@@ -752,82 +747,90 @@ func (w *c07World) oracle(st c07Station, c c07Cell, parsedOK bool, fams [2]c07Fa
 			if passes[0].parse == "err" && fams[1-i].kind != "ok" && fams[i].kind == "ok" {
 				sig = "C07:admissible-family-dropped-with-failing-twin"
 			}
-			out.OracleFail(sig, fmt.Sprintf("%s registration satisfies every admission condition but connectable=%v announced=%d (parse=%s, construction %s/%s)",
+			out.OracleFail(sig, fmt.Sprintf("the %s registration satisfies every admission condition but connectable=%v announced=%d (parseRegMessage: %s, construction v4/v6: %s/%s)",
 				famName[i], connect, announced, passes[0].parse, fams[0].kind, fams[1].kind), replay)
 		case !want.admit && (connect || announced > 0):
 			out.OracleFail("C07:admitted-without:"+strings.ReplaceAll(want.why, " ", "-"),
-				fmt.Sprintf("%s registration is connectable=%v announced=%d although: %s does not hold", famName[i], connect, announced, want.why), replay)
+				fmt.Sprintf("the %s registration is connectable=%v announced=%d although this does not hold: %s", famName[i], connect, announced, want.why), replay)
 		}
-		// probes: exactly when required, for this phantom
+		// ---- a probe exactly when one is required
 		if want.probe {
-			totalProbesWanted++
+			probesWanted++
 		}
 		if f.reg != nil {
-			ip := f.reg.PhantomIp.String()
-			n, pseq := count(passes[0].evs, 'P', ip)
+			n, pseq := count(passes[0].evs, 'P', f.reg.PhantomIp.String())
 			out.Checked()
 			if want.probe && n != 1 {
-				out.OracleFail("C07:probe-missing", fmt.Sprintf("%s registration requires a liveness probe, %d sent", famName[i], n), replay)
+				out.OracleFail("C07:probe-missing", fmt.Sprintf("the %s registration requires a liveness probe, %d sent", famName[i], n), replay)
 			}
 			if !want.probe && n != 0 {
-				out.OracleFail("C07:probe-not-required", fmt.Sprintf("%s registration: %d liveness probe(s) although none is required", famName[i], n), replay)
+				out.OracleFail("C07:probe-not-required", fmt.Sprintf("the %s registration: %d liveness probe(s) although none is required", famName[i], n), replay)
 			}
-			// sharing
-			for _, e := range passes[0].evs {
-				if e.kind != 'S' {
-					continue
-				}
-				sh := &pb.C2SWrapper{}
-				if err := proto.Unmarshal(e.body, sh); err != nil {
-					out.OracleFail("C07:share-undecodable", err.Error(), replay)
-					continue
-				}
-				out.Checked()
-				if !sh.GetRegistrationPayload().GetFlags().GetPrescanned() || sh.GetRegistrationSource() != pb.RegistrationSource_DetectorPrescan {
-					out.OracleFail("C07:share-not-marked-prescanned", fmt.Sprintf("shared copy: prescanned=%v source=%s", sh.GetRegistrationPayload().GetFlags().GetPrescanned(), sh.GetRegistrationSource()), replay)
-				}
-				if e.phantom != c07Endpoint {
-					out.OracleFail("C07:share-wrong-endpoint", e.phantom, replay)
-				}
-				if !v6 && !c.prescanned && want.mayShare {
-					// the IPv4 registration had to pass the probe first
-					if n != 1 || pseq == 0 || pseq > e.seq || st.live {
-						out.OracleFail("C07:share-before-liveness", fmt.Sprintf("share request seq %d, probe seq %d, live=%v", e.seq, pseq, st.live), replay)
-					}
-				}
+			if i == 0 {
+				probeSeq = pseq
+			}
+		}
+		// ---- the duplicate pass changes nothing but the counter
+		if f.reg != nil {
+			a, b := passes[0].fam[i], passes[1].fam[i]
+			out.Checked()
+			if a.valid != b.valid || a.connect != b.connect || a.tracked != b.tracked {
+				out.OracleFail("C07:duplicate-changes-validity", fmt.Sprintf("%s registration: valid %v→%v connectable %v→%v", famName[i], a.valid, b.valid, a.connect, b.connect), replay)
 			}
 		}
 	}
-	// sharing, per message
-	nShare, _ := count(passes[0].evs, 'S', "")
-	w4, w6 := c07Expect(st, c, false), c07Expect(st, c, true)
+	out.Checked()
+	if n, _ := count(passes[0].evs, 'P', ""); n != probesWanted {
+		out.OracleFail("C07:probe-count", fmt.Sprintf("%d probe(s) sent, %d required", n, probesWanted), replay)
+	}
+	// ---- sharing with peer stations
+	nShare := 0
+	for _, e := range passes[0].evs {
+		if e.kind != 'S' {
+			continue
+		}
+		nShare++
+		out.Checked()
+		sh := &pb.C2SWrapper{}
+		if err := proto.Unmarshal(e.body, sh); err != nil {
+			out.OracleFail("C07:share-undecodable", err.Error(), replay)
+			continue
+		}
+		if !sh.GetRegistrationPayload().GetFlags().GetPrescanned() || sh.GetRegistrationSource() != pb.RegistrationSource_DetectorPrescan {
+			out.OracleFail("C07:share-not-marked-prescanned", fmt.Sprintf("shared copy: prescanned=%v source=%s", sh.GetRegistrationPayload().GetFlags().GetPrescanned(), sh.GetRegistrationSource()), replay)
+		}
+		if e.phantom != c07Endpoint {
+			out.OracleFail("C07:share-wrong-endpoint", e.phantom, replay)
+		}
+		if c07Sources[c.source] != pb.RegistrationSource_Detector {
+			out.OracleFail("C07:shared-non-detector-registration", fmt.Sprintf("source %s", c07Sources[c.source]), replay)
+		}
+		if !(wants[0].mayShare || wants[1].mayShare) {
+			why := "no registration of the message passed validation, covert policy and liveness"
+			if c.v4s && c.v6s {
+				why = "only the IPv6 twin of a dual-stack registration was left to share (or the IPv4 twin failed)"
+			}
+			out.OracleFail("C07:share-not-allowed", why, replay)
+		}
+		if wants[0].mayShare && !c.prescanned {
+			// it is the IPv4 registration that is shared: its probe came first and said "not live"
+			if probeSeq == 0 || probeSeq > e.seq || st.live {
+				out.OracleFail("C07:share-before-liveness", fmt.Sprintf("share request seq %d, probe seq %d, live=%v", e.seq, probeSeq, st.live), replay)
+			}
+		}
+	}
 	out.Checked()
 	if nShare > 1 {
 		out.OracleFail("C07:shared-more-than-once", fmt.Sprintf("%d share requests for one client registration", nShare), replay)
 	}
-	if nShare > 0 && c07Sources[c.source] != pb.RegistrationSource_Detector {
-		out.OracleFail("C07:shared-non-detector-registration", fmt.Sprintf("source %s", c07Sources[c.source]), replay)
-	}
-	if nShare > 0 && !(w4.mayShare || w6.mayShare) {
-		why := "no registration of the message passed covert policy and liveness"
-		if c.v4s && !w4.mayShare {
-			why = "only the IPv6 twin of a dual-stack registration could have been shared, or the IPv4 twin failed liveness"
-		}
-		out.OracleFail("C07:share-not-allowed", why, replay)
-	}
-	nProbe, _ := count(passes[0].evs, 'P', "")
-	if nProbe != totalProbesWanted {
-		out.OracleFail("C07:probe-count", fmt.Sprintf("%d probe(s) sent, %d required", nProbe, totalProbesWanted), replay)
-	}
-	// duplicate pass: nothing is probed, shared or announced again
+	// ---- duplicate pass: nothing is probed, shared or announced again
 	out.Checked()
 	if len(passes[1].evs) != 0 {
 		out.OracleFail("C07:duplicate-has-effects", fmt.Sprintf("re-sending the message caused %s", passes[1].evsStr), replay)
 	}
-	if passes[0].parse == "panic" || passes[1].parse == "panic" || strings.Contains(passes[0].evsStr, "panic") {
+	if passes[0].parse == "panic" || passes[1].parse == "panic" || strings.Contains(passes[0].evsStr, "panic") || fams[0].kind == "panic" || fams[1].kind == "panic" {
 		out.OracleFail("C07:panic", "ingest panicked", replay)
 	}
-	_ = parsedOK
 }
 
 // ---------------------------------------------------------------------------------------------
@@ -845,8 +848,18 @@ func c07Setup(t *testing.T, out *vlib.Out) *c07World {
 	w := &c07World{t: t, out: out, rec: &c07Recorder{}, rms: map[string]*RegistrationManager{}}
 	http.DefaultTransport = c07Peer{rec: w.rec}
 	http.DefaultClient.Transport = c07Peer{rec: w.rec}
-	// make sure the package-level helpers that start goroutines lazily have done so
+	// create every manager and touch the package-level helpers that start goroutines lazily before
+	// the idle goroutine count is taken
 	Stat()
+	for _, e4 := range []bool{true, false} {
+		for _, e6 := range []bool{true, false} {
+			for _, share := range []bool{false, true} {
+				for block := range c07Blocklists {
+					w.manager(c07Station{e4: e4, e6: e6, share: share, block: block})
+				}
+			}
+		}
+	}
 	time.Sleep(10 * time.Millisecond)
 	w.base = runtime.NumGoroutine()
 	return w
@@ -974,5 +987,3 @@ func c07Replay(w *c07World, path string) {
 		}
 	}
 }
-
-var _ = binary.BigEndian
